@@ -195,6 +195,9 @@ pub fn get_triple(&self, outputs: &Shape) -> (r: Vec<Vec<Vec<f32>>>)
     //@inline-after /for __r in 0\.\.\*?\w+\s*\{/ #1
         proof { lemma_rm_alg(__p as int, __q as int, __r as int, hh, ww); lemma_rm_alg(__p as int, __q as int, __r as int + 1, hh, ww); lemma_rm(__p as int, __q as int, __r as int, cc, hh, ww); }
     //@end
+    //@inline-after /let mut __it: usize = 0;/
+        proof { assert(0 * hh * ww == 0) by (nonlinear_arith); }
+    //@end
     //@loop 1
             invariant
                 ${UNFLAT_CTX}
